@@ -56,7 +56,7 @@ type caseCtx struct {
 
 func shapeCase[T any](c *caseCtx, shape string, mk func(int) T, idOf func(T) int, customName bool) {
 	for _, kind := range []string{"memory", "sqlite-mem", "memory-paged"} {
-		for _, api := range []string{"persist-name", "replay-eventtype-compare", "subscribe-replay-phase", "subscribe-live-phase", "upcast-as-source", "upcast-as-target", "upcast-target-into-subscription"} {
+		for _, api := range []string{"persist-name", "replay-eventtype-compare", "subscribe-replay-phase", "subscribe-live-phase", "upcast-as-source", "upcast-rename-only", "upcast-as-target", "upcast-target-into-subscription"} {
 			sig := fmt.Sprintf("%s|%s|%s", shape, api, kind)
 			msg := apiCase(c, kind, api, mk, idOf)
 			c.run.Case(sig, customName)
@@ -146,6 +146,23 @@ func apiCase[T any](c *caseCtx, kind, api string, mk func(int) T, idOf func(T) i
 		want := ebu.EventType(upTo{}) + `:{"ID":103}`
 		if len(seen) != 1 || seen[0] != want {
 			return fmt.Sprintf("upcaster registered with RegisterUpcast[T, To] was not applied to the persisted T event: callback saw %v, want [%s]", seen, want)
+		}
+	case "upcast-rename-only":
+		// a migration that only renames the type: the upcast output is byte-identical to the stored data
+		ebu.Publish(bus, mk(3))
+		stored := readAll()
+		if err := ebu.RegisterUpcast(bus, func(t T) json.RawMessage { return append(json.RawMessage{}, stored[0].Data...) }); err != nil {
+			return "RegisterUpcast: " + err.Error()
+		}
+		var types []string
+		if err := bus.ReplayWithUpcast(ctx, ebu.OffsetOldest, func(e *ebu.StoredEvent) error {
+			types = append(types, e.Type)
+			return nil
+		}); err != nil {
+			return "ReplayWithUpcast: " + err.Error()
+		}
+		if want := ebu.EventType(json.RawMessage{}); len(types) != 1 || types[0] != want {
+			return fmt.Sprintf("a rename-only upcast (output bytes equal the stored data) was handed out as %v, want type %q", types, want)
 		}
 	case "upcast-as-target":
 		ebu.Publish(bus, upFrom{ID: 4})
